@@ -12,9 +12,12 @@ for d in /tmp/wt/out/$A/*/; do
   if ! git -C "$WT" apply "$d/patch.diff" 2>/dev/null; then echo "$A-$k: PATCH does not apply"; continue; fi
   DC="skipped"
   if [ -f "$d/diffcheck.py" ] && [ -f "$d/expected.json" ]; then
-    T=$(mktemp -d /tmp/dc-XXXXXX); cp "$d/diffcheck.py" "$d/expected.json" "$T/"
-    sed -i -E "s#/tmp/wt/$A#$WT#g" "$T/diffcheck.py"
-    (cd "$T" && PYTHONPATH="$WT/src" timeout 900 /venv/bin/python diffcheck.py compare >/dev/null 2>&1); DC="exit $?"; rm -rf "$T"
+    # the agent's recording may contain its own worktree path (error messages): compare there, on the agent's clean worktree
+    AW=/tmp/wt/$A
+    if [ -d "$AW" ] && [ -z "$(git -C "$AW" status --porcelain)" ] && git -C "$AW" apply "$d/patch.diff" 2>/dev/null; then
+      (cd "$d" && PYTHONPATH="$AW/src" timeout 900 /venv/bin/python diffcheck.py compare >/dev/null 2>&1); DC="exit $?"
+      git -C "$AW" checkout -q -- .; git -C "$AW" clean -fdq
+    fi
   fi
   S=$(/tmp/wt/suite.sh "$WT" 2>&1)
   PASSED=$(echo "$S" | grep -oE "[0-9]+ passed" | head -1)
